@@ -141,9 +141,9 @@ static const char *const qsym[] = {
 
 /* descriptor alphabet: every string of up to 4 (thorough 5) of these */
 static const char *const dsym[] = {
-    "a", ".", "[", "]", "0", "1", "+", "=", "#", "{", "}", "\\"
+    "a", ".", "[", "]", "0", "1", "+", "=", "#", "{", "}", "\\", "8"
 };
-#define NDSYM 12
+#define NDSYM 13
 
 static int nops(int tier)
 {
